@@ -84,6 +84,8 @@ def op_name(op):
         return "draw"
     if op[0] == "badargs":
         return "incompatible-args:" + op[1]
+    if op[0] == "initr":
+        return "_init_render_:" + ("iteration" if op[1] else "render")
     return op[0]
 
 
@@ -295,6 +297,25 @@ class Scn:
                         early = data.finalized          # the library must leave the caller's data alone
                         data.finalize()
                         self.rec[n0 - 1]["caller_fin"] = not early
+            elif k == "initr":
+                # a custom operation of an extension: `_init_render_(renderer, iteration=, finalize=)` called
+                # directly; finalize=True -> finalized once as soon as the renderer is over, finalize=False and
+                # the renderer succeeded -> the caller keeps the data (and finalizes it himself, afterwards)
+                def renderer(data, args, _raise=op[3]):
+                    if _raise:
+                        raise exc_of("OSError")
+                    return None
+
+                keep = None
+                try:
+                    r._init_render_(renderer, iteration=op[1], finalize=op[2])
+                    if not op[2]:
+                        keep = len(r.datas) - 1
+                finally:
+                    if keep is not None and keep >= n0:
+                        early = r.datas[keep].finalized
+                        r.datas[keep].finalize()
+                        self.rec[keep] = dict(kind="caller", owner="caller", caller_fin=not early)
             elif k == "drawx":
                 if op[1] == "nocheck":
                     r.draw(None, dpad, animate=False, check_size=False)
@@ -384,6 +405,8 @@ class Scn:
                 self.rec[i] = dict(kind="iter", owner=self.gen) if self.it_data == i else dict(kind="failed-ctor")
             elif k == "badargs" and op[1] in ("iter", "frd"):
                 self.rec[i] = dict(kind="failed-ctor")
+            elif k == "initr" and i in self.rec and self.rec[i].get("kind") == "caller":
+                pass
             else:
                 self.rec[i] = dict(kind="oneshot")
         return out
@@ -471,6 +494,7 @@ class Scn:
             return v("stale-data-accepted", f"_from_render_data_ with finalized data: {out}", got=M.res_sig(out))
         if not self.fired and out[0] == "raise" and not (
                 (k == "seekbad" and out[1] == "ValueError") or k in ("frd_stale", "badargs")
+                or (k == "initr" and op[3] and out[1] == "OSError")        # the harness's own renderer raised it
                 or (state_before in ("closed", "zombie") and k in ("next", "seek0", "seekbad", "size", "close"))
                 or (self.cfg["n"] == 1 and k in ("iter", "frd") and out[1] == "ValueError")):   # not animated
             return v("exception", f"{k} raised {out[1]} without any fault", got=M.res_sig(out))
@@ -502,6 +526,7 @@ def ops_of(cfg):
            ("iter", 1, False), ("iter", 2, True), ("frd", 1, 1), ("frd", 0, 2), ("frd_stale", 1), ("frd_stale", 0),
            ("next",), ("seek0",), ("seekbad",), ("size",), ("close",), ("drop",), ("cdfin",),
            ("badargs", "render"), ("badargs", "draw"), ("badargs", "drawa"), ("badargs", "iter"), ("badargs", "frd")]
+    ops += [("initr", it, fin, rs) for it in (False, True) for fin in (True, False) for rs in (False, True)]
     if cfg.get("rich"):
         ops += [("drawa", 2, False), ("iter", -1, True), ("iter", 3, 2), ("drawa", 3, 2), ("frd", 1, 2), ("frd", 0, 1),
                 ("drawx", "nocheck"), ("drawx", "scroll"), ("drawx", "exactpad"), ("drawx", "echo")]
